@@ -99,7 +99,8 @@ let show_obs (o : obs) : string =
 
 let show_err = function UAF -> "UAF" | ENOENT -> "ENOENT" | BadEvent -> "BAD"
 
-let cfg = Stdlib.ref { cf_iter_owns = true; cf_holds_ver = true; cf_cache = false }
+let big_fuel : nat = let rec go acc k = if k = 0 then acc else go (S acc) (k - 1) in go O 1000000
+let cfg = Stdlib.ref { cf_iter_owns = true; cf_holds_ver = true; cf_cache = false; cf_fuel = big_fuel }
 let st = Stdlib.ref (minit N0)
 
 let ev (e : event) : outcome =
@@ -114,7 +115,7 @@ let words s = String.split_on_char ' ' s |> List.filter (fun x -> x <> "")
 let handle (line : string) : string =
   match words line with
   | "H" :: seq :: io :: hv :: ca :: _ ->
-      cfg := { cf_iter_owns = (io = "1"); cf_holds_ver = (hv = "1"); cf_cache = (ca = "1") };
+      cfg := { cf_iter_owns = (io = "1"); cf_holds_ver = (hv = "1"); cf_cache = (ca = "1"); cf_fuel = big_fuel };
       st := minit (n_of_dec seq); "H ok"
   | "W" :: b :: _ ->
       let kvs = List.map (fun kv ->
